@@ -749,7 +749,7 @@ def main() -> int:
     samples: list = []
     digests: list = []
     refsample: list = []
-    limit = 7000 if args.tier == "thorough" else 1500
+    limit = max(7000 if args.tier == "thorough" else 1500, (deadline - __import__("time").time()) + 900)
     try:
         for task, st in wp.map_unordered(worker_task, tasks, timeout=limit):
             for k in agg:
